@@ -8,5 +8,7 @@ trap 'git -C /repo worktree remove --force '$WT' >/dev/null 2>&1' EXIT
 ( cd $WT && git apply "$P" ) || { echo "patch does not apply"; exit 2; }
 cd /verif && VERIF_REPO=$WT ./check "$ID" "$TIER" 2>&1 | grep -E "^(VIOLATION|KNOWN|SUMMARY|MACHINERY)|signature:" | head -${MUT_LINES:-12}
 rm -rf /verif/evidence/.work/$ID/run-$TIER-alt-* 2>/dev/null
+# ... and so does the binary that was built against the scratch copy
+rm -rf "/verif/evidence/.work/_bin/alt-$(echo -n "$WT" | md5sum | cut -c1-12)" 2>/dev/null
 # the evidence file now describes the mutant run: restore the committed one
 git -C /verif checkout -q -- "evidence/$ID.json" 2>/dev/null
